@@ -44,6 +44,8 @@ RefDiff == { [t |-> "name", n |-> NameQN("ex", A, Y)],
              [t |-> "name", n |-> NamePL("ex", Y)],
              [t |-> "name", n |-> NameBare(X)],
              [t |-> "name", n |-> [rep |-> "rec", r |-> [c |-> "doc", i |-> 2]]] }
+(* (a time given as a typed literal is not among the representations C05 claims; the readers' use of *)
+(* it is exercised by C11, flag timetype)                                                          *)
 TimeSame == { [t |-> "dt", v |-> "t1"], [t |-> "iso", v |-> "t1"] }
 TimeDiff == { [t |-> "dt", v |-> "t2"], [t |-> "iso", v |-> "t2"] }
 Same(f) == IF f \in TimeAttrs THEN TimeSame ELSE RefSame
